@@ -57,7 +57,8 @@ pub fn print(t: &T) -> String {
             _ => format!("-({})", print(x)),
         },
         T::Not(x) => match **x {
-            T::Num(_) | T::Bool(_) => format!("not {}", print(x)),
+            // (a stacked `not not x` needs no parentheses either)
+            T::Num(_) | T::Bool(_) | T::Not(_) => format!("not {}", print(x)),
             _ => format!("not ({})", print(x)),
         },
         T::Bin(op, a, b) => {
